@@ -421,9 +421,15 @@ def generate(vc_path, out_dir, canary=False):
                 p = os.path.join(VERIF, "contracts", "prelude", name + ".rs")
                 out.add("// ---- trusted prelude: %s ----\n" % name, section="prelude")
                 out.add(open(p).read() + "\n", section="prelude", prelude=name)
-        elif d.name == "raw":
+        elif d.name in ("raw", "include"):
             open_verus()
-            txt = d.text()
+            if d.name == "include":
+                txt = ""
+                for nm in d.arg.split():
+                    txt += "// ---- shared specification: %s ----\n" % nm + open(os.path.join(VERIF, "contracts", "spec", nm + ".rs")).read() + "\n"
+                d = Directive("raw", "include_" + "_".join(d.arg.split()), d.lineno)
+            else:
+                txt = d.text()
             ids = clause_index(txt)
             rawname = d.arg.strip() or "raw%d" % d.lineno
             # obligations inside raw text: every proof fn / exec fn declared there counts as one
@@ -503,6 +509,56 @@ def generate(vc_path, out_dir, canary=False):
         elif d.name == "endblock":
             out.add("}\n\n", section="block")
             block = None
+        elif d.name == "assume_fn":
+            # @assume_fn <unit> <fn> : signature from the current source, contract text from <unit>.vc,
+            # body dropped (external_body). The obligation is discharged in <unit>, assumed here.
+            open_verus()
+            ou, oname = d.arg.split()[:2]
+            ods = parse_vc(os.path.join(VERIF, "contracts", ou + ".vc"))
+            oblock = None
+            found = None
+            k2 = 0
+            while k2 < len(ods):
+                od = ods[k2]
+                if od.name in ("impl", "trait"):
+                    oblock = od
+                elif od.name == "endblock":
+                    oblock = None
+                elif od.name == "fn" and od.arg.split()[-1] == oname:
+                    found = (k2, oblock)
+                    break
+                k2 += 1
+            if found is None:
+                raise ContractSyntax("@assume_fn: %s not found in %s.vc" % (oname, ou))
+            k2, oblock = found
+            if (oblock is None) != (block is None):
+                raise ContractSyntax("@assume_fn %s: must be used inside the same kind of block as in %s.vc" % (oname, ou))
+            parts = ods[k2].arg.split()
+            rel = parts[0] if len(parts) == 2 else block_file
+            fs = FnSpec(rel, oname, d.lineno)
+            fs.nloops_expected = None
+            fs.bodyless = True
+            fs.attrs.append("#[verifier::external_body]")
+            k2 += 1
+            while ods[k2].name != "endfn":
+                if ods[k2].name == "ret": fs.ret = ods[k2].arg.strip()
+                elif ods[k2].name == "sig": fs.sig = ods[k2].text()
+                elif ods[k2].name == "sub" and "sig" in ods[k2].arg:
+                    pass
+                k2 += 1
+            f = sf(rel)
+            if block is not None:
+                cands = [it for it in f.sub_items(block) if it.kind == "fn" and it.name == oname]
+            else:
+                cands = [it for it in f.items if it.kind == "fn" and it.name == oname and not it.is_test()]
+            if len(cands) != 1:
+                raise LostAnchor("%s: assumed fn %s in %s: %d matches" % (unit_id, oname, rel, len(cands)))
+            it = cands[0]
+            where = "%s:%d" % (rel, f.src.count("\n", 0, it.start) + 1)
+            sink = []
+            apply_fn(fs, it.text, unit_id, rewrites_log, out, where)
+            functions.append({"fn": oname, "path": where, "sha256": hashlib.sha256(it.text.encode()).hexdigest()[:16],
+                              "assumed": True, "proved_in": ou})
         elif d.name == "fn":
             open_verus()
             parts = d.arg.split()
